@@ -21,8 +21,11 @@ Fixpoint parse_specs (fuel : nat) (s : str) : list cspec :=
   | S f =>
       match s with
       | [] => []
-      | a :: 45 :: b :: r => Range a b :: parse_specs f r
-      | a :: r => Single a :: parse_specs f r
+      | a :: r =>
+          match r with
+          | m :: b :: r' => if m =? 45 then Range a b :: parse_specs f r' else Single a :: parse_specs f r
+          | _ => Single a :: parse_specs f r
+          end
       end
   end.
 Fixpoint position (c : N) (s : str) : option nat :=
@@ -30,13 +33,18 @@ Fixpoint position (c : N) (s : str) : option nat :=
 
 Definition is_sep (c : N) : bool := c =? 47.
 Fixpoint count_stars (s : str) : nat :=
-  match s with 42 :: r => S (count_stars r) | _ => 0%nat end.
+  match s with c :: r => if c =? 42 then S (count_stars r) else 0%nat | [] => 0%nat end.
 Definition is_rec (t : gtok) : bool := match t with TRec => true | _ => false end.
 
 Inductive glob_err := EWildcards | ERecursive | ERange.
 
 (* glob::Pattern::new.  [prev]: the character before the current position
    (None at the start); [acc]: tokens so far, most recent first. *)
+Definition push_rec (acc : list gtok) : list gtok :=
+  match acc with
+  | TRec :: _ :: _ => acc    (* collapse consecutive ** *)
+  | _ => TRec :: acc
+  end.
 Fixpoint glob_compile (fuel : nat) (prev : option N) (acc : list gtok) (s : str)
   : res glob_err (list gtok) :=
   match fuel with
@@ -44,46 +52,51 @@ Fixpoint glob_compile (fuel : nat) (prev : option N) (acc : list gtok) (s : str)
   | S f =>
       match s with
       | [] => Val (List.rev acc)
-      | 63 :: r => glob_compile f (Some 63) (TAny :: acc) r
-      | 42 :: _ =>
-          let count := count_stars s in
-          let r := skipn count s in
-          if Nat.ltb 2 count then Fail EWildcards
-          else if Nat.eqb count 2 then
-            let starts_ok := match prev with None => true | Some p => is_sep p end in
-            if starts_ok then
-              let push acc := match acc with
-                              | TRec :: _ :: _ => acc    (* collapse consecutive ** *)
-                              | _ => TRec :: acc
-                              end in
-              match r with
-              | [] => glob_compile f (Some 42) (push acc) r
-              | c :: r' => if is_sep c then glob_compile f (Some c) (push acc) r'
-                           else Fail ERecursive
-              end
-            else Fail ERecursive
-          else glob_compile f (Some 42) (TStar :: acc) r
-      | 91 :: r =>
-          (* '[' : r = chars[i+1..] *)
-          match r with
-          | 33 :: _ :: _ :: _ =>
-              match position 93 (skipn 2 r) with
-              | Some j =>
-                  let set := firstn (S j) (skipn 1 r) in
-                  glob_compile f (Some 93) (TNotIn (parse_specs (S (length set)) set) :: acc) (skipn (j + 3) r)
-              | None => Fail ERange
-              end
-          | 33 :: _ => Fail ERange
-          | _ :: _ :: _ =>
-              match position 93 (skipn 1 r) with
-              | Some j =>
-                  let set := firstn (S j) r in
-                  glob_compile f (Some 93) (TIn (parse_specs (S (length set)) set) :: acc) (skipn (j + 2) r)
-              | None => Fail ERange
-              end
-          | _ => Fail ERange
-          end
-      | c :: r => glob_compile f (Some c) (TChar c :: acc) r
+      | c :: r =>
+          if c =? 63 then glob_compile f (Some 63) (TAny :: acc) r
+          else if c =? 42 then
+            let count := count_stars s in
+            let r := skipn count s in
+            if Nat.ltb 2 count then Fail EWildcards
+            else if Nat.eqb count 2 then
+              let starts_ok := match prev with None => true | Some p => is_sep p end in
+              if starts_ok then
+                match r with
+                | [] => glob_compile f (Some 42) (push_rec acc) r
+                | c :: r' => if is_sep c then glob_compile f (Some c) (push_rec acc) r'
+                             else Fail ERecursive
+                end
+              else Fail ERecursive
+            else glob_compile f (Some 42) (TStar :: acc) r
+          else if c =? 91 then
+            (* '[' : r = chars[i+1..] *)
+            match r with
+            | [] => Fail ERange
+            | x :: r1 =>
+                if x =? 33 then
+                  match r1 with
+                  | _ :: _ :: _ =>
+                      match position 93 (skipn 2 r) with
+                      | Some j =>
+                          let set := firstn (S j) (skipn 1 r) in
+                          glob_compile f (Some 93) (TNotIn (parse_specs (S (length set)) set) :: acc) (skipn (j + 3) r)
+                      | None => Fail ERange
+                      end
+                  | _ => Fail ERange
+                  end
+                else
+                  match r1 with
+                  | _ :: _ =>
+                      match position 93 (skipn 1 r) with
+                      | Some j =>
+                          let set := firstn (S j) r in
+                          glob_compile f (Some 93) (TIn (parse_specs (S (length set)) set) :: acc) (skipn (j + 2) r)
+                      | None => Fail ERange
+                      end
+                  | [] => Fail ERange
+                  end
+            end
+          else glob_compile f (Some c) (TChar c :: acc) r
       end
   end.
 Definition glob_new (p : str) : res glob_err (list gtok) := glob_compile (S (length p)) None [] p.
@@ -204,6 +217,25 @@ Definition string_step (p : str) : option (list str) :=
       end
   end.
 
+(* the loop over the alternatives in alternate_match: the first expansion
+   that compiles and matches wins; expansions that do not compile are skipped.
+   [rec] is the recursive Pattern::matches call. *)
+Definition alt_any (rec : pattern -> option bool) : list str -> option bool :=
+  fix go (ms : list str) : option bool :=
+    match ms with
+    | [] => Some false
+    | m :: r =>
+        match pattern_new m with
+        | Val pt' =>
+            match rec pt' with
+            | None => None
+            | Some true => Some true
+            | Some false => go r
+            end
+        | _ => go r
+        end
+    end.
+
 (* Pattern::matches on a compiled pattern; fuel bounds the recursion
    alternate_match -> Pattern::new -> matches (depth = number of '{') *)
 Fixpoint pmatches (fuel : nat) (pt : pattern) (pkg : str) : option bool :=
@@ -218,21 +250,7 @@ Fixpoint pmatches (fuel : nat) (pt : pattern) (pkg : str) : option bool :=
            | S f =>
                match string_step (ptext pt) with
                | None => Some false
-               | Some cands =>
-                   (fix go (ms : list str) : option bool :=
-                      match ms with
-                      | [] => Some false
-                      | m :: r =>
-                          match pattern_new m with
-                          | Val pt' =>
-                              match pmatches f pt' pkg with
-                              | None => None
-                              | Some true => Some true
-                              | Some false => go r
-                              end
-                          | _ => go r
-                          end
-                      end) cands
+               | Some cands => alt_any (fun pt' => pmatches f pt' pkg) cands
                end
            end
        end.
